@@ -230,6 +230,11 @@ let respond (line : String.t) : String.t =
      | Some g -> show_term g
      | None -> "(NoGen \"\")")
   | [ "canon"; b ] -> show_term (canon (parse_term b))
+  | [ "idem"; b ] ->
+    (* the two decidable hypotheses of C13_idempotent_checked, and the conclusion evaluated *)
+    let t = parse_term b in
+    let c = canon t in
+    Printf.sprintf "fresh=%b stable=%b idem=%b" (fresh_blockb t) (numbering_stableb t) (term_eqb (canon c) c)
   | [ "ren_by"; orig; canonical ] ->
     (* the resolver alone, driven by the position map read off the rewritten generics list *)
     let orig = parse_term orig and canonical = parse_term canonical in
